@@ -182,10 +182,9 @@ def exp_spline(chk, P):
             return None
         assume.text = "Exp_Spline scenario: " + scenario
         I.assumption_fns.append(assume)
-        inst = InstV(cls)
-        inst.attrs["_detach_point"] = _point_syms(I, P, "s", "sx")
-        inst.attrs["_attach_point"] = _point_syms(I, P, "e", "ex")
-        coefs = W.run_method(I, inst, "_init_spline_coefficients", [])
+        # through the public constructor and the documented spline_coefficients property
+        inst = I.instantiate(cls, [_point_syms(I, P, "s", "sx"), _point_syms(I, P, "e", "ex")], {}, None)
+        coefs = I.getattr(inst, "spline_coefficients")
         if len(cap.systems) != 1:
             raise AnalysisError("Exp_Spline solves %d linear systems (expected 1)" % len(cap.systems))
         A, B, names = cap.systems[0]
@@ -261,11 +260,8 @@ def buck4_spline(chk, P):
     I = F.make_interp(P)
     cap = SolveCapture()
     numpy_model(I, cap, "u")
-    inst = InstV(cls)
-    inst.attrs["_detach_point"] = _point_syms(I, P, "s", "r_dp")
-    inst.attrs["_attach_point"] = _point_syms(I, P, "e", "r_ap")
-    inst.attrs["_r_min"] = Num(ep.sym("r_min"))
-    W.run_method(I, inst, "_init_spline_coefficients", [])
+    # through the public constructor: which private helper solves the system is the code's business
+    inst = I.instantiate(cls, [_point_syms(I, P, "s", "r_dp"), _point_syms(I, P, "e", "r_ap"), Num(ep.sym("r_min"))], {}, None)
     if len(cap.systems) != 1:
         raise AnalysisError("Buck4_Spline solves %d systems" % len(cap.systems))
     M, V, names = cap.systems[0]
@@ -319,11 +315,11 @@ def buck4_spline(chk, P):
     # coefficient split
     r = ep.sym("r")
     for attr, lo, n in (("_spline5", 0, 6), ("_spline3", 6, 4)):
-        f = inst.attrs.get(attr)
+        f = I.getattr(inst, attr[1:])     # public properties spline5 / spline3
         v = I.num(I.call(f, [Num(r)], {})) if f is not None else None
         want = sum((ep.sym("u%d" % (lo + i)) * ep.pow_(r, ep.const(i)) for i in range(n)), ep.const(0))
         ok = v is not None and ep.equal(v, want)[0]
-        chk.ob("C10.O3", "%s is the polynomial of solution components %d..%d in ascending order" % (attr, lo, lo + n - 1), ok, site=site,
+        chk.ob("C10.O3", "%s is the polynomial of solution components %d..%d in ascending order" % (attr[1:], lo, lo + n - 1), ok, site=site,
                found=v, expect=want, key="C10.O3|split|%s" % attr)
 
 
